@@ -36,7 +36,11 @@ func Embed(l *core.Lane, kind int, parts [][]byte, surround bool) *Embedded {
 // EmbedX is Embed with further surroundings drawn from the side lane x (nil or zero: none): a
 // JPEG also carries one or two XMP APP1 segments, which DrawJPEG places before or after the Exif
 // segment like any other.
-func EmbedX(l, x *core.Lane, kind int, parts [][]byte, surround bool) *Embedded {
+func EmbedX(l, x *core.Lane, kind int, parts [][]byte, surround bool, more ...*core.Lane) *Embedded {
+	var y *core.Lane // a second side lane, for knobs added later (so that traces of x keep their meaning)
+	if len(more) > 0 {
+		y = more[0]
+	}
 	e := &Embedded{Kind: kind}
 	var xmps [][]byte
 	if x != nil && kind == CJPEG {
@@ -120,6 +124,17 @@ func EmbedX(l, x *core.Lane, kind int, parts [][]byte, surround bool) *Embedded 
 				// (the box reader, which avif-branded files are routed through, resolves the Exif item
 				// only when iinf precedes iloc: that order is part of this variant)
 				ho.AVIFBrand, ho.IinfFirst, e.AVIF = true, true, true
+			}
+		}
+		if y != nil {
+			// what HEIF writers do and the payload does not depend on: the order of iloc and iinf,
+			// base offsets, an mdat box per item, many items, an item in two extents
+			if ho.AVIFBrand && y.Chance(1, 2) {
+				ho.IinfFirst = false
+			}
+			ho.BaseOffset, ho.SecondMdat, ho.MultiExtent = y.Chance(1, 3), y.Chance(1, 3), y.Chance(1, 3)
+			if y.Chance(1, 3) {
+				ho.ManyItems = []int{1, 7, 60, 150, 200, 260}[y.Intn(6)]
 			}
 		}
 		h := DrawHEIFOpts(l, parts[0], surround, ho)
